@@ -230,6 +230,9 @@ def judge_cut_effect(p, sm):
     return out, n, (int(dark.sum()), int((~dark).sum()))
 
 
+KEPT_INFO = []
+
+
 def judge_cut_history():
     """one RegionGeomToO object: throw(times A) -> optical integral -> throw(times B, SAME number of kept events but
     different sun/moon conditions) -> optical integral; each per-event column must equal a fresh object's."""
@@ -237,7 +240,7 @@ def judge_cut_history():
 
     _iers()
     out = []
-    p = dict(ra=0.3, dec=math.radians(89.5), date="2022-11-16T06:00:00", T=86400.0, N=48, lat=math.radians(-9), lon=math.radians(10), alt=33.0, limb=1.5)
+    p = dict(ra=0.3, dec=math.radians(89.5), date="2022-11-16T06:00:00", T=86400.0, N=48, lat=math.radians(-9), lon=math.radians(10), alt=33.0, limb=7.0)
     sm = {"sun_alt_cut": math.radians(-12), "moon_alt_cut": 0.0, "moon_min_phase_angle_cut": math.radians(90), "sun_moon_cuts": True}
     cfg = mk(p["ra"], p["dec"], p["date"], p["T"], p["N"], p["lat"], p["lon"], p["alt"], p["limb"], sm=sm)
     fr = np.arange(48) / 48.0
@@ -256,6 +259,7 @@ def judge_cut_history():
     with warnings.catch_warnings():
         warnings.simplefilter("ignore")
         fresh = [contrib(RegionGeomToO(cfg), b) for b in batches]
+        KEPT_INFO[:] = [len(f) for f in fresh]
         n = 0
         for seq in itertools.product(range(len(batches)), repeat=2):
             g = RegionGeomToO(cfg)
@@ -373,7 +377,8 @@ def run(ctx):
                 ctx.violation(c, {"kind": "effect", "p": p, "sm": sm}, e, o)
     ctx.cov["cut_effect_cases"] = nce
     v, n = judge_cut_history()
-    ctx.tick(n, ("cut_history",))
+    ctx.tick(n, ("cut_history", tuple(KEPT_INFO)))
+    ctx.cov["cut_history_bytes_per_batch"] = list(KEPT_INFO)
     for c, seq, e, o in v[:3]:
         ctx.violation(c, {"kind": "cut_history", "seq": seq}, e, o)
 
